@@ -192,6 +192,8 @@ def detail_key(rule, ev, rows, idx, case):
 
 
 def run_batch(ctx, binary, cases, tag, stats):
+    """Replay one batch of histories on the real engine, validate the recorded log with TLC, report broken rules."""
+    import bisect
     cp = ctx.path("cases-%s.ndjson" % tag)
     ep = ctx.path("events-%s.ndjson" % tag)
     rp = ctx.path("results-%s.ndjson" % tag)
@@ -200,54 +202,51 @@ def run_batch(ctx, binary, cases, tag, stats):
     results = lib.read_ndjson(rp)
     rows = lib.read_ndjson(ep)
     by_id = {c["id"]: c for c in cases}
+    res_by_id = {r["id"]: r for r in results}
     if len(results) != len(cases):
         raise lib.Inconclusive("driver returned %d results for %d cases" % (len(results), len(cases)))
     with _LOCK:
-        _account(ctx, results, by_id, stats)
-    return_after = None
-    for r in []:
-        if r.get("panic"):
-            ctx.violation("panic", "panic while executing history %s: %s" % (r["id"], r["panic"]), {"case": by_id[r["id"]], "result": r})
-        if r.get("unstable"):
-            raise lib.Inconclusive("subgraph data was not static in history %s (same query+representation, different value)" % r["id"])
-        for rr in r["reqs"]:
-            stats["requests"] += 1
-            if rr["n_exchanges"] < rr["n_exchanges_ref"]:
-                stats["requests_saving_exchanges"] += 1
-            if rr["cache_errs"]:
-                stats["requests_with_cache_errors"] += 1
+        for r in results:
+            if r.get("panic"):
+                ctx.violation("panic", "panic while executing history %s: %s" % (r["id"], r["panic"]), {"case": by_id[r["id"]], "result": r})
+            if r.get("unstable"):
+                raise lib.Inconclusive("subgraph data was not static in history %s (same query+representation, different value)" % r["id"])
+            for rr in r["reqs"]:
+                stats["requests"] += 1
+                if rr["n_exchanges"] < rr["n_exchanges_ref"]:
+                    stats["requests_saving_exchanges"] += 1
+                if rr["cache_errs"]:
+                    stats["requests_with_cache_errors"] += 1
     # ---- TLC trace validation (batch mode: rules broken by every event are reported, the run goes on)
     r = ctx.tlc(SPEC_DIRS, "Trace_EntityCache", "Trace_EntityCache.cfg", workers=1, env={"TRACE": ep}, timeout=2400, deadlock=False,
                 count=False, tag="trace-validation-" + tag, heap="6g")
     if not r.ok:
         print(r.out[-3000:])
         raise lib.Inconclusive("trace validation of batch %s did not run to the end: %s" % (tag, r.error))
-    # index events -> history
     starts = [i for i, x in enumerate(rows) if x["ev"] == "reset"]
-    import bisect
-    totals = [p for p in r.printed if "stored" in p]
-    if totals:
-        stats["items_stored"] += totals[-1]["stored"]
-        stats["full_hits"] += totals[-1]["hits"]
-    for p in r.printed:
-        if "flagged" not in p:
-            continue
-        line = p["flagged"]  # 1-based
-        idx = line - 1
-        ev = rows[idx]
-        h = bisect.bisect_right(starts, idx) - 1
-        s, e = starts[h], (starts[h + 1] if h + 1 < len(starts) else len(rows))
-        cid = rows[s]["id"]
-        case = by_id.get(cid)
-        res = next((x for x in results if x["id"] == cid), None)
-        for rule in sorted(p["rules"]):
-            key = detail_key(rule, ev, rows, idx, case)
-            stats["flags"][key] = stats["flags"].get(key, 0) + 1
-            if stats["flags"][key] > 1 and key in stats["reported"]:
+    with _LOCK:
+        totals = [p for p in r.printed if "stored" in p]
+        if totals:
+            stats["items_stored"] += totals[-1]["stored"]
+            stats["full_hits"] += totals[-1]["hits"]
+        for p in r.printed:
+            if "flagged" not in p:
                 continue
-            stats["reported"].add(key)
-            what = "rule %s of Trace_EntityCache broken by event #%d of history %s: %s" % (rule, idx - s + 1, cid, json.dumps(ev)[:400])
-            ctx.violation(key, what, {"case": case, "events": rows[s:e], "result": res, "failing_event_index": idx - s + 1, "rule": rule})
+            idx = p["flagged"] - 1  # flagged = 1-based line of the event
+            ev = rows[idx]
+            h = bisect.bisect_right(starts, idx) - 1
+            s, e = starts[h], (starts[h + 1] if h + 1 < len(starts) else len(rows))
+            cid = rows[s]["id"]
+            case = by_id.get(cid)
+            for rule in sorted(p["rules"]):
+                key = detail_key(rule, ev, rows, idx, case)
+                stats["flags"][key] = stats["flags"].get(key, 0) + 1
+                if key in stats["reported"]:
+                    continue
+                stats["reported"].add(key)
+                what = "rule %s of Trace_EntityCache broken by event #%d of history %s: %s" % (rule, idx - s + 1, cid, json.dumps(ev)[:400])
+                ctx.violation(key, what, {"case": case, "events": rows[s:e], "result": res_by_id.get(cid), "failing_event_index": idx - s + 1,
+                                          "rule": rule})
     return rows, results
 
 
